@@ -168,61 +168,79 @@ Fixpoint collect {A} (l : list (res (option A))) : res (list A) :=
       end
   end.
 
-(* game_start: sequential reads; each optional tail is attempted iff bytes remain (if_more), and then must be complete *)
+Definition rbind {A B} (x : res A) (f : A -> res B) : res B :=
+  match x with ROk a => f a | RErr => RErr | RUnknown => RUnknown end.
+Notation "x <~ a ;; b" := (rbind a (fun x => b)) (at level 61, a at next level, right associativity).
+
+Lemma rbind_ok {A B} (x : res A) (f : A -> res B) b : rbind x f = ROk b -> exists a, x = ROk a /\ f a = ROk b.
+Proof. destruct x; cbn; intro H; try discriminate. eauto. Qed.
+
+(* if_more: an optional tail is attempted iff bytes remain at its offset, and must then be complete *)
+Definition tail_at (n off need : nat) : res (option nat) :=
+  if (n <=? off)%nat then ROk None else if (n <? off + need)%nat then RErr else ROk (Some off).
+Definition next_tail (n : nat) (prev : option nat) (off need : nat) : res (option nat) :=
+  match prev with None => ROk None | Some _ => tail_at n off need end.
+
+Definition language_of (blk : list byte) (t : option nat) : res (option N) :=
+  match t with
+  | None => ROk None
+  | Some off => let x := u8_at blk off in if mem x Language_codes then ROk (Some x) else RErr
+  end.
+
+Definition match_of (blk : list byte) (t : option nat) : res (option (list byte * N * N)) :=
+  match t with
+  | None => ROk None
+  | Some off => id <~ nul_utf8_dflt (sub blk off 51) 50 ;;
+                ROk (Some (id, be_at blk (off + 51) 4, be_at blk (off + 55) 4))
+  end.
+
+Definition opt_chunk (blk : list byte) (t : option nat) (w : nat) (i : nat) : option (list byte) :=
+  match t with Some off => Some (sub blk (off + w * i) w) | None => None end.
+
+Definition players_of (blk : list byte) (t10 t13 t39 t311 : option nat) : res (list player) :=
+  let is_teams := negb (u8_at blk 12 =? 0) in
+  let pv0 := chunks 36 6 (skipn 100 blk) in
+  collect (map (fun i => player_of (N.of_nat i) (nth i pv0 []) is_teams
+                                   (opt_chunk blk t10 8 i) (opt_chunk blk t13 16 i)
+                                   (opt_chunk blk t39 31 i)
+                                   (match t39 with Some off => Some (sub blk (off + 124 + 10 * i) 10) | None => None end)
+                                   (opt_chunk blk t311 29 i))
+               [0; 1; 2; 3]%nat).
+
+Definition mk_start (blk : list byte) (t15 t20 t37 : option nat) (language : option N)
+           (mtch : option (list byte * N * N)) (players : list player) : start_t :=
+  {| st_bytes := blk; st_version := (u8_at blk 0, u8_at blk 1, u8_at blk 2);
+     st_bitfield := map (fun i => u8_at blk (4 + i)) [0; 1; 2; 3]%nat;
+     st_bombs := negb (u8_at blk 10 =? 0); st_teams := negb (u8_at blk 12 =? 0);
+     st_item_freq := u8_at blk 15; st_sd_score := u8_at blk 16;
+     st_stage := be_at blk 18 2; st_timer := be_at blk 20 4;
+     st_item_bitfield := map (fun i => u8_at blk (39 + i)) [0; 1; 2; 3; 4]%nat;
+     st_damage_ratio := be_at blk 52 4;
+     st_players := players; st_seed := be_at blk 316 4;
+     st_pal := match t15 with Some off => Some (negb (u8_at blk off =? 0)) | None => None end;
+     st_frozen := match t20 with Some off => Some (negb (u8_at blk off =? 0)) | None => None end;
+     st_scene := match t37 with Some off => Some (u8_at blk off, u8_at blk (off + 1)) | None => None end;
+     st_language := language; st_match := mtch |}.
+
+(* game_start: sequential reads over the block; the optional tails follow the version history of the spec:
+   1.0 UCF (32), 1.3 name tags (64), 1.5 PAL (1), 2.0 frozen PS (1), 3.7 scene (2), 3.9 netplay names+codes (164),
+   3.11 UIDs (116), 3.12 language (1), 3.14 match info (59) *)
 Definition game_start (blk : list byte) : res start_t :=
   let n := length blk in
   if (n <? 320)%nat then RErr else
-  (* tails: (needed size, cumulative offset) *)
-  let tail (off need : nat) : res (option nat) :=   (* Some off if present *)
-      if (n <=? off)%nat then ROk None else if (n <? off + need)%nat then RErr else ROk (Some off) in
-  match tail 320%nat 32%nat with RErr => RErr | RUnknown => RUnknown | ROk t10 =>
-  match (match t10 with None => ROk None | Some _ => tail 352%nat 64%nat end) with RErr => RErr | RUnknown => RUnknown | ROk t13 =>
-  match (match t13 with None => ROk None | Some _ => tail 416%nat 1%nat end) with RErr => RErr | RUnknown => RUnknown | ROk t15 =>
-  match (match t15 with None => ROk None | Some _ => tail 417%nat 1%nat end) with RErr => RErr | RUnknown => RUnknown | ROk t20 =>
-  match (match t20 with None => ROk None | Some _ => tail 418%nat 2%nat end) with RErr => RErr | RUnknown => RUnknown | ROk t37 =>
-  match (match t37 with None => ROk None | Some _ => tail 420%nat 164%nat end) with RErr => RErr | RUnknown => RUnknown | ROk t39 =>
-  match (match t39 with None => ROk None | Some _ => tail 584%nat 116%nat end) with RErr => RErr | RUnknown => RUnknown | ROk t311 =>
-  match (match t311 with None => ROk None | Some _ => tail 700%nat 1%nat end) with RErr => RErr | RUnknown => RUnknown | ROk t312 =>
-  match (match t312 with None => ROk None | Some _ => tail 701%nat 59%nat end) with RErr => RErr | RUnknown => RUnknown | ROk t314 =>
-  let language :=
-    match t312 with
-    | None => ROk None
-    | Some off => let x := u8_at blk off in if mem x Language_codes then ROk (Some x) else RErr
-    end in
-  match language with RErr => RErr | RUnknown => RUnknown | ROk language =>
-  let mtch :=
-    match t314 with
-    | None => ROk None
-    | Some off => match nul_utf8_dflt (sub blk off 51) 50 with
-                  | ROk id => ROk (Some (id, be_at blk (off + 51) 4, be_at blk (off + 55) 4))
-                  | RErr => RErr | RUnknown => RUnknown end
-    end in
-  match mtch with RErr => RErr | RUnknown => RUnknown | ROk mtch =>
-  let is_teams := negb (u8_at blk 12 =? 0) in
-  let pv0 := chunks 36 6 (skipn 100 blk) in
-  let opt_chunks (t : option nat) (w : nat) : nat -> option (list byte) :=
-      fun i => match t with Some off => Some (sub blk (off + w * i) w) | None => None end in
-  let players :=
-    map (fun i => player_of (N.of_nat i) (nth i pv0 []) is_teams
-                            (opt_chunks t10 8%nat i) (opt_chunks t13 16%nat i)
-                            (opt_chunks t39 31%nat i)
-                            (match t39 with Some off => Some (sub blk (off + 124 + 10 * i) 10) | None => None end)
-                            (opt_chunks t311 29%nat i))
-        [0; 1; 2; 3]%nat in
-  match collect players with RErr => RErr | RUnknown => RUnknown | ROk players =>
-  ROk {| st_bytes := blk; st_version := (u8_at blk 0, u8_at blk 1, u8_at blk 2);
-         st_bitfield := map (fun i => u8_at blk (4 + i)) [0; 1; 2; 3]%nat;
-         st_bombs := negb (u8_at blk 10 =? 0); st_teams := is_teams;
-         st_item_freq := u8_at blk 15; st_sd_score := u8_at blk 16;
-         st_stage := be_at blk 18 2; st_timer := be_at blk 20 4;
-         st_item_bitfield := map (fun i => u8_at blk (39 + i)) [0; 1; 2; 3; 4]%nat;
-         st_damage_ratio := be_at blk 52 4;
-         st_players := players; st_seed := be_at blk 316 4;
-         st_pal := match t15 with Some off => Some (negb (u8_at blk off =? 0)) | None => None end;
-         st_frozen := match t20 with Some off => Some (negb (u8_at blk off =? 0)) | None => None end;
-         st_scene := match t37 with Some off => Some (u8_at blk off, u8_at blk (off + 1)) | None => None end;
-         st_language := language; st_match := mtch |}
-  end end end end end end end end end end end end.
+  t10 <~ tail_at n 320 32 ;;
+  t13 <~ next_tail n t10 352 64 ;;
+  t15 <~ next_tail n t13 416 1 ;;
+  t20 <~ next_tail n t15 417 1 ;;
+  t37 <~ next_tail n t20 418 2 ;;
+  t39 <~ next_tail n t37 420 164 ;;
+  t311 <~ next_tail n t39 584 116 ;;
+  t312 <~ next_tail n t311 700 1 ;;
+  t314 <~ next_tail n t312 701 59 ;;
+  language <~ language_of blk t312 ;;
+  mtch <~ match_of blk t314 ;;
+  players <~ players_of blk t10 t13 t39 t311 ;;
+  ROk (mk_start blk t15 t20 t37 language mtch players).
 
 (* game_end *)
 Definition player_end (port : N) (p : N) : res (option (N * N)) :=
